@@ -36,7 +36,16 @@ KINDS = "SNC"            # structural item kinds: std::string, long long, callab
 #   c std::function<const char*()> variable    k const function object (variable)    v lambda stored in a variable (lvalue)
 # (a std::function returning a NUMBER is not a lazily evaluated callable for the library: is_callable<T, std::string()> is
 #  false and `stream << f` does not compile, so it cannot be part of a statement)
-CKINDS = "olpfFckv"
+CKINDS0 = "olpfFckv"
+# callables whose call operator is NOT const (invocable in the value category in which they are streamed):
+#   M mutable capturing lambda (temporary)     w function object with non-const operator() (temporary)   W the same, non-const variable
+#   Q the same, const variable (operator<< calls its own by-value copy)     i non-const operator() AND non-explicit operator bool
+#   (so it could also be inserted as a value), temporary     I the same, variable     j non-const operator() AND its own operator<<, variable
+CKINDS1 = "MwWQiIj"
+CKINDS = CKINDS0 + CKINDS1
+# streamable objects (model: IObj, a value item with its rendering):  b derived object streamed through const Base& whose operator<<
+#   calls a virtual function    u class with a deleted copy constructor    m class whose copies render differently from the original
+OBJKINDS = "bum"
 STRUCT_SHAPES = ["".join(t) for n in range(4) for t in itertools.product(KINDS, repeat=n)]   # 40 structural shapes
 SHAPES = [s.replace("C", "o") for s in STRUCT_SHAPES]
 NSLOTS = 4
@@ -50,15 +59,17 @@ FULL_SHAPE_LOGGERS = (0, 5)
 REDUCED_SHAPES = [s for s in SHAPES if len(s) <= 2] + ["SNo", "ooo", "oSo", "NoS"]
 # every callable kind alone and after a string item, for every logger; for the two full loggers also every ordered pair of
 # kinds and an lvalue std::function streamed twice
-KIND_SHAPES = [k for k in CKINDS if k != "o"] + ["S" + k for k in CKINDS if k != "o"]
-PAIR_SHAPES = [a + b for a in CKINDS for b in CKINDS if a + b != "oo"] + ["fNf"]
+KIND_SHAPES = ([k for k in CKINDS0 if k != "o"] + ["S" + k for k in CKINDS0 if k != "o"] + list(CKINDS1) + ["S" + k for k in "iIj"]
+               + ["b", "Sb", "u", "m"])
+PAIR_SHAPES = ([a + b for a in CKINDS0 for b in CKINDS0 if a + b != "oo"] + ["fNf"] + [k + "o" for k in CKINDS1] + ["o" + k for k in CKINDS1]
+               + ["bo", "ob", "mb", "bub", "Sm", "uS"])
 
 
 # items that put the statement's std::stringstream into fail()/bad():  x  (const char*)nullptr   y  (std::streambuf*)nullptr
 #   z  a user type whose operator<< sets failbit.  Before, between and after callables.
 FAILKINDS = "xyz"
 FAIL_SHAPES = ["x", "xo", "ox", "oxo", "yo", "zo", "oz"]
-FAIL_SHAPES_FULL = [q + k for q in FAILKINDS for k in CKINDS] + [k + q for q in FAILKINDS for k in CKINDS] + ["oyo", "ozo", "xSo", "Sxo", "xx"]
+FAIL_SHAPES_FULL = [q + k for q in FAILKINDS for k in CKINDS0] + [k + q for q in FAILKINDS for k in CKINDS0] + ["oyo", "ozo", "xSo", "Sxo", "xx"]
 # contexts a whole statement is executed in:  n straight-line code   u inside a destructor during stack unwinding
 #   c inside a catch handler   d inside a destructor on normal scope exit
 CONTEXTS = "nucd"
@@ -89,7 +100,7 @@ def has_shape(lg, sh):
 
 
 def item_letter(it):
-    return it[3] if it[0] == "C" else it[1] if it[0] == "X" else it[0]
+    return it[3] if it[0] == "C" else it[1] if it[0] in "XV" else it[0]
 
 
 GEN_SRC = "harness/gen/log_driver.cpp"
@@ -193,6 +204,8 @@ def itemw(it):
         return "N%d" % it[1]
     if k == "X":
         return "X" + it[1]
+    if k == "V":
+        return "V" + it[1] + hx(it[2])
     return "C%s%d.%s" % (it[3], it[1], hx(it[2]))
 
 
@@ -305,6 +318,8 @@ def shape_items(shape, variant=0):
             out.append(("N", [7, -12, 0, 9007199254740993][(p + variant) % 4]))
         elif k in FAILKINDS:
             out.append(("X", k))
+        elif k in OBJKINDS:
+            out.append(("V", k, "<%s%d>" % (k, p)))
         else:
             out.append(("C", p + 1 + 3 * variant, "<%d>" % (p + 1), k))
     return out
@@ -347,8 +362,12 @@ def quick_deterministic():
                             yield case(mn, pre + stmt_ops(form, lg, sv, tag, shape_items(sh))), "stmt-grid"
                         # every callable kind at every cell of the grid, in this form
                         for j, k in enumerate(CKINDS):
-                            sh = k if (n + j) % 2 else "S" + k
+                            sh = k if (n + j) % 2 or k in "MwWQ" else "S" + k
                             yield case(mn, pre + stmt_ops(form, lg, sv, TAGS[(n + j) % 2], shape_items(sh))), "kind-grid"
+                        # every kind of streamable object at every cell
+                        for j, k in enumerate(OBJKINDS):
+                            sh = k if (n + j) % 2 or k != "b" else "Sb"
+                            yield case(mn, pre + stmt_ops(form, lg, sv, TAGS[(n + j) % 2], shape_items(sh))), "object-grid"
                         # a failing insertion before / between / after callables at every cell
                         for j in range(2):
                             sh = FAIL_SHAPES[(n + 3 * j) % len(FAIL_SHAPES)]
@@ -374,9 +393,11 @@ def kind_cases():
 
 
 def rand_item(rng, nid):
-    k = rng.choice("SSSNNCCCCX")
+    k = rng.choice("SSSNNCCCCCXV")
     if k == "X":
         return ("X", rng.choice(FAILKINDS))
+    if k == "V":
+        return ("V", rng.choice(OBJKINDS), "".join(rng.choice("ab <>") for _ in range(rng.choice([0, 1, 4]))))
     if k == "S":
         n = rng.choice([0, 1, 1, 2, 5])
         return ("S", "".join(rng.choice("ab |:\x00\n\xff%") for _ in range(n)))
@@ -389,7 +410,7 @@ def fit(lg, its):
     """a one-expression statement must use a shape instantiated for its logger"""
     if has_shape(lg, "".join(item_letter(i) for i in its)):
         return its
-    plain = [i[:3] + ("o",) if i[0] == "C" else ("X", "x") if i[0] == "X" else i for i in its]
+    plain = [i[:3] + ("o",) if i[0] == "C" else ("X", "x") if i[0] == "X" else ("S", i[2]) if i[0] == "V" else i for i in its]
     if has_shape(lg, "".join(item_letter(i) for i in plain)):
         return plain
     plain = [i for i in plain if i[0] != "X"]
@@ -525,17 +546,18 @@ class LogCheck(Check):
         yield from cross_record_cases()
         if tier == "quick":
             yield from quick_deterministic()
-            # every 11th statement of the complete single-statement space (11 is coprime to the inner loop sizes)
+            # every 29th statement of the complete single-statement space (29 is coprime to the inner loop sizes; the grids above
+            # already put every item kind at every cell)
             for n, c in enumerate(single_statement_space()):
-                if n % 11 == 1:
-                    yield c, "stmt-stride11"
+                if n % 29 == 1:
+                    yield c, "stmt-stride29"
             nprog, nseq = 6000, 3000
         else:
             for c in single_statement_space():
                 yield c, "stmt-exhaustive"
-            # every other statement of the same space once more, executed in another context (rotating u, c, d; u twice as often)
+            # every third statement of the same space once more, executed in another context (rotating u, c, d; u twice as often)
             for n, c in enumerate(single_statement_space(ctxs="uucd")):
-                if n % 2:
+                if n % 3 == 1:
                     yield c, "stmt-context"
             nprog, nseq = 400000, 200000
         for _ in range(nprog):
